@@ -82,7 +82,7 @@ def run(chk: Check):
                 "sanitising, generated-looking '(n)' names and stereo stems; sequences are placed at every directory level of real AKAI, "
                 "Roland and CDDA images, exported into a directory nested inside a sentinel, and every created file is judged")
     k = 4 if thorough else 3
-    budget = 500 if thorough else 55
+    budget = 500 if thorough else 40
     plans = [
         ("akai files", naming.AKAI_POOL if thorough else naming.AKAI_POOL[:9], False, False, "akai"),
         ("akai volumes", naming.AKAI_POOL if thorough else naming.AKAI_POOL[:9], True, False, "akai"),
@@ -95,13 +95,16 @@ def run(chk: Check):
     if not thorough:      # 4-sibling collisions in the quick tier: two pairs with one stem, duplicate groups generating the same counted name
         plans += [("akai files", ["A L", "A-L", "A R", "A-R", "A"], False, False, "akai", 4),
                   ("roland samples", ["A L", "A-L", "A R", "A-R", "A (2)"], False, False, "other", 4),
-                  ("cdda titles", ["A L", "A R", "A-L", "A-R", "A"], False, True, "other", 3)]       # L/R titles must NOT be merged
+                  ("cdda titles", ["A L", "A R", "A-L", "A-R", "A"], False, True, "other", 4)]       # L/R titles must NOT be merged
     for label, pool, is_dir, nocomb, kind, k in plans:
         res = chk.run_model(naming.model(pool, k, is_dir, kind, no_combine=nocomb), label=f"design: {label}, <= {k} of {len(pool)} names",
                             timeout_s=3000)
         cases = res.cases
         stride = max(1, len(cases) // budget)
-        for i, c in enumerate(cases[(chk.seed + 3) % stride::stride]):
+        picked = cases[(chk.seed + 3) % stride::stride]
+        if k == 4 and len(pool) <= 5:        # targeted pool: every 4-sibling sequence with two duplicates or two L/R pairs, unstrided
+            picked = [c for c in cases if len(c["names"]) == 4 and naming.collision_rich([naming.S(n) for n in c["names"]])]
+        for i, c in enumerate(picked):
             names = [naming.S(n) for n in c["names"]]
             seed = chk.seed + i
             outs = [naming.S(o["name"]) for o in c["outputs"]]
